@@ -1,0 +1,45 @@
+//go:build verif
+
+package runtime
+
+// Verification hooks (build tag `verif`): event tracer + read-only snapshot accessor.
+// With the tag off, verif_off.go provides an empty verifEvent and nothing else exists.
+
+// VerifHook - when non-nil, receives one event after each state change of the VM
+var VerifHook func(vm *VM, ev string, name string, n int)
+
+func verifEvent(vm *VM, ev string, name string, n int) {
+	if VerifHook != nil {
+		VerifHook(vm, ev, name, n)
+	}
+}
+
+// VerifSnap - projection of the VM state used by the conformance checks
+type VerifSnap struct {
+	Frames   int         // csCount
+	CurMod   int         // csModuleID
+	Kinds    []uint8     // call type per frame (outermost first)
+	Mods     []int       // module id per frame
+	Lines    []int       // current line per frame
+	Depth    map[int]int // scope depth per module
+	Live     map[int]int // live symbol count per module
+	CurDepth int         // scope depth of the current module (-1 if none)
+}
+
+// VerifSnapshot - read-only
+func (vm *VM) VerifSnapshot() VerifSnap {
+	s := VerifSnap{Frames: vm.csCount, CurMod: vm.csModuleID, Depth: map[int]int{}, Live: map[int]int{}, CurDepth: -1}
+	for _, f := range vm.callStack[:vm.csCount] {
+		s.Kinds = append(s.Kinds, f.callType)
+		s.Mods = append(s.Mods, f.module.GetID())
+		s.Lines = append(s.Lines, f.currentLine)
+	}
+	for id, sp := range vm.valueStack {
+		s.Depth[id] = sp.currentDepth
+		s.Live[id] = sp.localCount
+	}
+	if sp, ok := vm.valueStack[vm.csModuleID]; ok {
+		s.CurDepth = sp.currentDepth
+	}
+	return s
+}
